@@ -255,6 +255,10 @@ var tmpls = []tmplT{
 	{"https://$host/", []string{"https://", hhole, "/"}},
 	{"https://$host/$path", []string{"https://", hhole, slash, hole}},
 	{"http://$host.mirror.example/m/$path", []string{"http://", hhole, ".mirror.example/m", slash, hole}},
+	// $path in the middle of the path (BuildRedirectURL substitutes it wherever it stands)
+	{"http://new.example/docs/$path/index.html", []string{"http://new.example/docs", slash, hole, "/index.html"}},
+	{"http://new.example/v$path/end", []string{"http://new.example/v", hole, "/end"}},
+	{"https://$host/m/$path/tail", []string{"https://", hhole, "/m", slash, hole, "/tail"}},
 }
 
 func (t tmplT) coq() string {
